@@ -398,15 +398,63 @@ class Check(PropertyCheck):
                     break
         return fails
 
+    def oracle_hooks(self):
+        """open outlines with two rounded corners (a long rule, a trunk down from its left end, an arm at the bottom), from a
+        few cells to more than 512 cells in one connected group, with and without ticks at the far end of the rule: no
+        corner character may come out as text, there are exactly two corner arcs, and both ends of each arc are ends of lines"""
+        fails = []
+        texts = []
+        for L in (8, 40, 200, 515, 530, 700):
+            for ticks in (False, True):
+                for left_arm in (True, False):
+                    texts.append(gen.wide_frame(self.rng, L, ticks, left_arm))
+        res = common.run_impl("lib", ["%d settings b=0,s=0,d=0 %s" % (i, hx(t)) for i, t in enumerate(texts)])
+        for i, t in enumerate(texts):
+            self.evaluations += 1
+            self.nontrivial.add(("hook", i))
+            case = {"input": t, "input_hex": hx(t), "kind": "hook"}
+            r = res[str(i)]
+            if not r.startswith("ok "):
+                fails.append(Failure("conversion did not return", case))
+                continue
+            try:
+                root = svgcanon.parse(unhx(r[3:]))
+            except svgcanon.ParseError:
+                continue
+            els = [e for _, e in svgcanon.flat_geometry(root)]
+            shown = [e.text for e in els if e.tag == "text"]
+            if any(set(x) <= set(".,'`") for x in shown):
+                fails.append(Failure("a corner character of an outline is shown as text", case, {"texts": shown[:5]}))
+                continue
+            arcs = [e for e in els if e.tag == "path"]
+            if len(arcs) != 2:
+                fails.append(Failure("an outline with two rounded corners does not have two corner arcs", case,
+                                     {"paths": [e.attrs for e in arcs][:4]}))
+                continue
+            ends = set()
+            for e in els:
+                if e.tag == "line":
+                    ends.add((F(e.attrs["x1"]), F(e.attrs["y1"])))
+                    ends.add((F(e.attrs["x2"]), F(e.attrs["y2"])))
+            for e in arcs:
+                nums = re.findall(r"-?[0-9]+(?:\.[0-9]+)?", e.attrs["d"])
+                sx, sy, rr, _, _, large, sweep, ex, ey = nums
+                if (F(sx), F(sy)) not in ends or (F(ex), F(ey)) not in ends:
+                    fails.append(Failure("an arc endpoint does not coincide with the end of an adjoining line", case,
+                                         {"d": e.attrs["d"]}))
+                    break
+        return fails
+
     def search(self, boost=1):
         fails = self.oracle_runs(self.run_cases())
+        fails += self.oracle_hooks()
         fails += self.oracle_corners(self.corner_cases())
         fails += self.oracle_multi_bullets(self.multi_bullet_cases())
         fails += self.oracle_trees(self.scale(150, 2500))
         return fails
 
     def replay_case(self, case):
-        if case.get("kind") == "tree":
+        if case.get("kind") in ("tree", "hook"):
             return []
         if case.get("kind") == "multi":
             return self.oracle_multi_bullets([tuple(case["case"])])
